@@ -128,9 +128,15 @@ func w1Classify(body []byte) (kind int, T uint32, spare bool, args *tlstatshouse
 	return w1KindOther, 0, false, nil
 }
 
+// Attempts are numbered per (agent, replica, kind, second, payload class). The class matters: after a
+// restart an agent process can hold two different buckets for one second (its killed predecessor's,
+// with the workload's rows, and its own nearly empty one) and two of its historic senders then send
+// them in the same instant. Which goroutine asks first is not a function of the choice vector, so the
+// two must not draw their numbers (and with them their fault decisions) from one counter.
 type w1AttemptKey struct {
 	agent, replica, kind int
 	T                    uint32
+	marker               bool
 }
 
 var errW1ConnReset = errors.New("w1 sim: connection reset")
@@ -150,7 +156,11 @@ func (c *w1Client) Do(ctx context.Context, network string, address string, req *
 	var call *w1Call
 	for {
 		w.mu.Lock()
-		key := w1AttemptKey{inst.agent, c.replica, kind, T}
+		var payload *w1Payload
+		if kind <= w1KindHistoric && args != nil {
+			payload = w.payloadLocked(inst, args)
+		}
+		key := w1AttemptKey{inst.agent, c.replica, kind, T, payload != nil && payload.hasMarker}
 		rep := w.reps[c.replica]
 		reachable := rep.up && !w.partition[inst.agent][c.replica]
 		if !reachable {
@@ -183,8 +193,9 @@ func (c *w1Client) Do(ctx context.Context, network string, address string, req *
 			body: append([]byte(nil), req.Body...), qid: w.nextQID, ch: make(chan w1Result, 2)}
 		call.conn = &w1Conn{w: w, call: call}
 		inst.calls[call] = struct{}{}
-		if kind <= w1KindHistoric && args != nil {
-			w.noteWireLocked(inst, call, args)
+		if payload != nil {
+			call.payload = payload
+			w.noteWireLocked(inst, args.Time, payload)
 		}
 		w.recLocked(w1Rec{typ: w1RecSend, agent: inst.agent, agentGen: inst.gen, replica: c.replica, repGen: rep.gen, kind: kind, T: T, spare: spare, attempt: attempt})
 		break
